@@ -33,7 +33,10 @@ def one(name):
         env = dict(os.environ, VERIF_REPO=wt, VERIF_EVIDENCE_DIR=ev)
         p = subprocess.run(["timeout", "3600", os.path.join(V, "bin", "check"), prop, "quick"], env=env, stdout=subprocess.PIPE,
                            stderr=subprocess.STDOUT, universal_newlines=True)
-        first = next((l.strip() for l in p.stdout.split("\n") if "violation:" in l), "")
+        os.makedirs("/tmp/seedreg-out", exist_ok=True)
+        with open("/tmp/seedreg-out/%s.log" % name, "w") as fh:
+            fh.write(p.stdout)
+        first = next((l.strip() for l in p.stdout.split("\n") if "violation:" in l or "INFRA" in l.upper()), "")
         return name, prop, p.returncode, first[:200]
     finally:
         with GIT:
